@@ -1183,7 +1183,13 @@ class SyncedStackedTransforms(StackedTransforms):
             pass
 
         fn.__code__ = code
-        fn.__ptera_info__ = info
-        fn.__ptera_token__ = token
         fn.__ptera_discard__ = False
-        fn.__globals__[fn.__ptera_token__] = fn
+        if info is None:
+            # Back on the original code: the function is not tooled anymore
+            for attr in ("__ptera_info__", "__ptera_token__"):
+                if hasattr(fn, attr):
+                    delattr(fn, attr)
+        else:
+            fn.__ptera_info__ = info
+            fn.__ptera_token__ = token
+            fn.__globals__[fn.__ptera_token__] = fn
